@@ -445,7 +445,10 @@ func BatchMain(self, verifDir string, p *Prop, tier string) int {
 		cob := &tailBuf{}
 		confirm.Stdout = cob
 		ccode, chung := runChild(confirm, max(p.MaxRunSecs, 60))
-		if ccode == 0 && !chung {
+		// a report of the race detector is sound whatever the schedule was (it has no false
+		// positives) and need not repeat when the run is executed alone
+		raceReport := strings.Contains(sig, ":data-race:") && strings.Contains(d.tail, "WARNING: DATA RACE")
+		if ccode == 0 && !chung && !(raceReport && !strings.Contains(string(cob.buf), "VIOLSIG ")) {
 			// alone it survives (the worker died of what its runs had accumulated, e.g. the
 			// memory cap); if it reports a violation of its own, that is the finding
 			out := string(cob.buf)
@@ -515,6 +518,7 @@ func BatchMain(self, verifDir string, p *Prop, tier string) int {
 	}
 	n = len(results)
 	// determinism sample: re-execute ~2% (at least 2) of the runs in other processes
+	nondet := ""
 	var recheck []int
 	for i := 0; i < n; i++ {
 		if i%50 == 7%min(n, 50) || (n < 8 && i < 2) {
@@ -542,8 +546,12 @@ func BatchMain(self, verifDir string, p *Prop, tier string) int {
 				continue // that run killed its worker in the first pass
 			}
 			if o.Hash != r.Hash {
-				fmt.Fprintf(os.Stderr, "HARNESS-TROUBLE property=%s nondeterminism: run %d hashed %s then %s\n", p.ID, r.Idx, o.Hash, r.Hash)
-				return 2
+				// with violations (or deaths) in the batch this is most likely the defect itself
+				// (e.g. a data race changing results); alone it is harness trouble
+				nondet = fmt.Sprintf("run %d hashed %s then %s", r.Idx, o.Hash, r.Hash)
+				if o.Viol == nil && r.Viol != nil {
+					o.Viol, o.Choices = r.Viol, r.Choices
+				}
 			}
 		}
 	}
@@ -585,7 +593,6 @@ func BatchMain(self, verifDir string, p *Prop, tier string) int {
 		}
 	}
 	sort.Strings(sigs)
-
 	// violations: every signature is minimised, classified and confirmed in CHILD
 	// processes (a change that makes sqlittle crash the process must not take the
 	// batch down): `shrink` rewrites the replay file in place, `replay` confirms.
@@ -698,6 +705,14 @@ func BatchMain(self, verifDir string, p *Prop, tier string) int {
 		}
 	}
 	wall := time.Since(t0).Seconds()
+	if nondet != "" {
+		if exit != 1 {
+			// no violation of its own in the batch: the harness is not deterministic here
+			fmt.Fprintf(os.Stderr, "HARNESS-TROUBLE property=%s nondeterminism: %s\n", p.ID, nondet)
+			return 2
+		}
+		fmt.Printf("note: %s - two executions of one run differ; the batch holds violations, which were reported\n", nondet)
+	}
 	// vacuity guard
 	if exit == 0 && p.Vacuity != nil {
 		if err := p.Vacuity(stats, n, tier); err != nil {
